@@ -3,6 +3,7 @@ import Driver.EvalD
 import Driver.StorageD
 import Driver.DecodeD
 import Driver.NotifierD
+import Driver.ClusterD
 
 /-!
   Line-protocol driver.  One operation per input line, one canonical output line per operation.
@@ -13,6 +14,7 @@ namespace Driver
 structure State where
   storage : StorageD.St := none
   notifier : NotifierD.St := {}
+  cluster : ClusterD.St := none
 
 def step (st : State) (line : String) : State × String :=
   let line := line.trimAscii.toString
@@ -20,6 +22,9 @@ def step (st : State) (line : String) : State × String :=
   match line.splitOn " " with
   | "E" :: args => (st, EvalD.step args)
   | "D" :: args => (st, DecodeD.step args)
+  | "K" :: args =>
+    let (s', out) := ClusterD.step st.cluster args
+    ({ st with cluster := s' }, out)
   | "N" :: args =>
     let (s', out) := NotifierD.step st.notifier args
     ({ st with notifier := s' }, out)
